@@ -75,8 +75,9 @@ def put_symbolic_parameters(state, prefix="", positive_std=True):
     out = {}
     with state.auto_fork(None):
         for name, var in by_type(state.dag, ModelParameter).items():
-            t = st.sym(prefix + name, tuple(var.shape))
-            if positive_std and positive_params(name):
+            shape = tuple(var.shape) if isinstance(var.shape, (tuple, list, torch.Size)) else (int(var.shape),)  # the mixture model declares `probs` with an int shape
+            t = st.sym(prefix + name, shape)
+            if positive_std and (positive_params(name) or name == "probs"):
                 for x in t.sym.reshape(-1):
                     T.assume(x > 0) if not z3.is_fp(x) else T.assume(z3.fpGT(x, z3.FPVal(0.0, x.sort())))
             state[name] = t
